@@ -73,6 +73,15 @@ NONLINEAR = [
 USER_FUNCS = {'f_half': (lambda v: 0.5 * v), 'f_cap': (lambda v: min(v, 10.0))}
 
 
+def user_funcs(spec):
+    """Functions to register for a spec; 'fscale' (hundredths) gives each spec its own f_half (|scale| <= 0.5)."""
+    sc = spec.get('fscale') if isinstance(spec, dict) else None
+    if sc is None:
+        return dict(USER_FUNCS)
+    c = sc / 100.0
+    return {'f_half': (lambda v, c=c: c * v), 'f_cap': USER_FUNCS['f_cap']}
+
+
 @st.composite
 def system(draw, n_sim=(1, 6), q_hi=80, q_lo=0, feedforward=None, lags=(0, 3), exos=(0, 2), consts=(0, 2),
            aliases=(0, 0), leaves=(0, 0), const_mag=5000, horizon=(1, 5), ic_prob=0, nonlinear=False,
@@ -280,7 +289,7 @@ def solve(spec, reduction=True, max_iter=None, tol_param=None, text=None, trace_
     if text is None:
         text = render(spec)
     es = EquationSolver(run_equation_reduction=reduction)
-    for fn, f in USER_FUNCS.items():
+    for fn, f in user_funcs(spec).items():
         es.AddFunction(fn, f)
     if max_iter is not None:
         es.MaxIterations = max_iter
@@ -300,6 +309,7 @@ def eval_env(spec, ts, k):
     """Environment of reported values at period k (plus user functions)."""
     env = {name: series[k] for name, series in ts.items() if len(series) > k}
     env.update(USER_FUNCS)
+    env.update(user_funcs(spec))
     return env
 
 
